@@ -319,7 +319,10 @@ type verdict struct {
 // judge runs src in the reference evaluator and in the real interpreter and
 // compares everything the property speaks about.
 func judge(src string) (v verdict, an *analysis) {
-	forms, err := parseAll(src)
+	// the reference reads the text with every name folded to lower case: names of blocks, tags,
+	// functions and variables are not case sensitive (the generators write lower case only; the
+	// letter-case specials spell one occurrence of a name differently)
+	forms, err := parseAll(foldCase(src))
 	if err != nil {
 		v.abort = "harness parse: " + err.Error()
 		return
@@ -603,7 +606,28 @@ var specials = []Case{
 	{Stream: "special", Label: "nested cleanups innermost first on error", Src: "(unwind-protect (unwind-protect (unwind-protect (error \"c07\") (vtr 101)) (vtr 102)) (vtr 103))"},
 	{Stream: "special", Label: "nested cleanups innermost first on return-from", Src: "(block a (unwind-protect (let ((u 1)) (unwind-protect (let ((w 2)) (vtr 1) (return-from a 7)) (vtr 101))) (vtr 102)) (vtr 2))"},
 	{Stream: "special", Label: "mutex released on error and re-taken", Src: "(list (ignore-errors (with-mutex-lock (vmx 1) (vtr 1) (error \"c07\"))) (with-mutex-lock (vmx 1) (vtr 2)))"},
+	{Stream: "special", Label: "letter case: block written in upper case, return-from in lower case", Src: "(block ZZ (vtr 1) (return-from zz 3) (vtr 2))"},
+	{Stream: "special", Label: "letter case: block written in lower case, return-from in upper case", Src: "(block zz (vtr 1) (let ((u 1)) (return-from ZZ 3)) (vtr 2))"},
+	{Stream: "special", Label: "letter case: function defined in upper case, return-from its name in lower case", Src: "(defun C07-G (p) (vtr 2) (return-from c07-g 9) (vtr 3))\n(list (vtr 1) (c07-g 1) (vtr 4))"},
+	{Stream: "special", Label: "letter case: function defined in lower case, return-from its name in upper case", Src: "(defun c07-g (p) (vtr 2) (return-from C07-G 9) (vtr 3))\n(list (vtr 1) (c07-g 1) (vtr 4))"},
+	{Stream: "special", Label: "letter case: go to a tag written in another case", Src: "(tagbody (vtr 1) (go TB) (vtr 2) tb (vtr 3))"},
+	{Stream: "special", Label: "letter case: go to a tag written in another case inside dotimes", Src: "(dotimes (i 2) (vtr 1) (go tb) (vtr 2) TB (vtr 3))"},
 	{Stream: "special", Label: "stream closed on return-from", Src: "(block a (let ((u 1)) (with-open-file (f1 \"c07-in.txt\" :direction :input) (vreg 1 f1) (vtr 1) (return-from a 5))) (vtr 2))"},
+}
+
+// foldCase lower-cases everything outside string literals.
+func foldCase(src string) string {
+	b := []byte(src)
+	in := false
+	for i, c := range b {
+		switch {
+		case c == '"' && (i == 0 || b[i-1] != '\\'):
+			in = !in
+		case !in && 'A' <= c && c <= 'Z':
+			b[i] = c + 'a' - 'A'
+		}
+	}
+	return string(b)
 }
 
 func setup() {
